@@ -378,13 +378,28 @@ def job_real(col: Collector, seed: int, tier: str, shard: int, n: int) -> None:
     hyp_run(col, seed * 1000 + 700 + shard, cases().map(lambda c: dict(c, real=True)), check, n)
 
 
-JOBS = {"hyp": job_hyp, "positions": job_positions, "real": job_real}
+def job_big_inbound(col: Collector, seed: int, tier: str) -> None:
+    """a line beyond 64 KiB in each outbound form x a server batch arriving at every small scheduler offset into its
+    write (the reader task then writes its rejection on the same pipe), followed by an ordinary message"""
+    small = ["dict", {"jsonrpc": "2.0", "method": "after"}]
+    for size in (66000, 140000):
+        bigw = {"jsonrpc": "2.0", "id": 1, "method": "big", "params": {"blob": {"$big": size}}}
+        for form in (["typed", "request", bigw], ["dict", bigw], ["str", bigw, False, True], ["typed", "unified", bigw]):
+            for d in (-1, 0, 1, 2, 3, 4, 5, 8):
+                case = {"items": [form, small], "inbound": [[0, d]]}
+                col.record(case, check(case))
+                case = {"items": [small, form, small], "inbound": [[1, d], [2, 0]]}
+                col.record(case, check(case))
+    col.exhaustive_parts.append("lines of 66,000 / 140,000 characters in 4 outbound forms x a server batch arriving at 8 scheduler offsets into the write")
+
+
+JOBS = {"hyp": job_hyp, "positions": job_positions, "real": job_real, "big_inbound": job_big_inbound}
 
 
 def jobs(tier: str):
     if tier == "quick":
-        return [("hyp", {"shard": s, "n": 150}) for s in range(10)] + [("positions", {})]
-    return [("hyp", {"shard": s, "n": 2500}) for s in range(11)] + [("positions", {})] + [("real", {"shard": s, "n": 60}) for s in range(4)]
+        return [("hyp", {"shard": s, "n": 150}) for s in range(10)] + [("positions", {}), ("big_inbound", {})]
+    return [("hyp", {"shard": s, "n": 2500}) for s in range(11)] + [("positions", {}), ("big_inbound", {})] + [("real", {"shard": s, "n": 60}) for s in range(4)]
 
 
 def shrink(signature: str, seed: int):
